@@ -141,7 +141,9 @@ impl Drv {
                 let st = ctx.state();
                 for e in st.config().options().entries() { put(&e.key, e.value) }
                 let rt = ctx.runtime_env();
-                for e in rt.config_entries() { put(&e.key, e.value) }
+                // temp_directory shows the lazily created spill directories (a random path that appears when the
+                // disk manager is first used): an observation of the environment, not a settable text form
+                for e in rt.config_entries() { if e.key != "datafusion.runtime.temp_directory" { put(&e.key, e.value) } }
                 put(RAW_MEM, Some(match rt.memory_pool.memory_limit() { MemoryLimit::Finite(n) => n.to_string(), MemoryLimit::Infinite => "infinite".into(), _ => "unknown".into() }));
                 put(RAW_TMP, Some(rt.disk_manager.max_temp_directory_size().to_string()));
             }
@@ -260,8 +262,9 @@ pub fn main() {
         let js: Vec<usize> = UMBRELLA_OVER.iter().filter_map(|k| d.uni.kidx.get(*k).copied()).collect();
         over_map.insert(u, js);
     }
-    for (k, raw) in [("datafusion.runtime.memory_limit", RAW_MEM), ("datafusion.runtime.max_temp_directory_size", RAW_TMP)] {
-        if let (Some(&a), Some(&b)) = (d.uni.kidx.get(k), d.uni.kidx.get(raw)) { over_map.insert(a, vec![b]); }
+    let mut raw: Vec<Value> = vec![];
+    for (k, r) in [("datafusion.runtime.memory_limit", RAW_MEM), ("datafusion.runtime.max_temp_directory_size", RAW_TMP)] {
+        if let (Some(&a), Some(&b)) = (d.uni.kidx.get(k), d.uni.kidx.get(r)) { raw.push(json!({"k": a + 1, "js": [b + 1]})); }
     }
     for (k, js) in &over_map { over.push(json!({"k": k + 1, "js": js.iter().map(|j| j + 1).collect::<Vec<_>>()})); }
 
@@ -330,7 +333,7 @@ pub fn main() {
                     }
                 }
             }
-            runs.push(json!({"keys": nkeys, "over": over, "fe": fe_kind, "kind": "coverage", "ev": ev}));
+            runs.push(json!({"keys": nkeys, "over": over, "raw": raw, "fe": fe_kind, "kind": "coverage", "ev": ev}));
         }
     }
     // 2. seeded random histories mixing keys
@@ -355,7 +358,7 @@ pub fn main() {
                 }
             }
         }
-        runs.push(json!({"keys": nkeys, "over": over, "fe": fe_kind, "kind": "random", "ev": ev}));
+        runs.push(json!({"keys": nkeys, "over": over, "raw": raw, "fe": fe_kind, "kind": "random", "ev": ev}));
     }
     util::write_ndjson(&out, &runs);
     let not_covered: Vec<&String> = (0..nkeys).filter(|&i| d.uni.class[i] != Class::NoSet && !(covered[i][0] || covered[i][1])).map(|i| &d.uni.keys[i]).collect();
